@@ -1,0 +1,24 @@
+//go:build verif
+// +build verif
+
+package token
+
+// Hooks for /verif property C12 (compiled only with -tags verif): read-only
+// views of the lexer tables, so that the Lean tables are regenerated from the
+// working tree. (Names carry the property id: other properties' hook files
+// live in this package too.)
+
+// VerifC12NBuiltInIDs is nBuiltInIDs.
+const VerifC12NBuiltInIDs = uint32(nBuiltInIDs)
+
+// VerifC12Squiggle returns squiggles[c].
+func VerifC12Squiggle(c byte) ID { return squiggles[c] }
+
+// VerifC12Lexers returns lexers[c] as parallel slices, in table order.
+func VerifC12Lexers(c byte) (suffixes []string, ids []ID) {
+	for _, x := range lexers[c] {
+		suffixes = append(suffixes, x.suffix)
+		ids = append(ids, x.id)
+	}
+	return suffixes, ids
+}
